@@ -43,6 +43,12 @@ def gen_vector(rng):
             x = cap
         elif k < 0.3:
             x = cap - 1
+        elif k < 0.4:
+            # exactly half-way between two renderings (k + 1/2 units of a prefix), odd and even k: the table value must be
+            # the round-half-even rendering of the JSON value
+            mult = rng.choice([1000, 1024, 1000**2, 1024**2, 1000**3, 1024**3])
+            kk = rng.choice([101, 102, 103, 255, 511, 999, 1023])
+            x = kk * mult + mult // 2
         elif k < 0.8:
             m = rng.randrange(0, 33)
             base = int(ref * m)
